@@ -427,6 +427,10 @@ def mk_fn(name, *args):
         got = _ungather([xp, fp], lab_)
         if got is not None:
             args = (args[0], B(lab_, got[0]), B(lab_, got[1])) + tuple(args[3:])
+    if name == 'compress' and len(args) == 3 and args[0][0] == 'L' and args[1][0] == 'B' and args[2][0] == 'B' and args[1][1] == args[2][1]:
+        # the elements a mask selects are the elements at the positions where it holds: x[mask] == x[nonzero(mask)]
+        lab = args[1][1]
+        return index_at(Poly.from_key(args[1][2]), lab, mk_fn('nonzero', args[0], args[2]))
     if name == 'searchsorted' and len(args) == 2 and args[0][0] == 'B' and args[1][0] == 'P':
         # the position of q in a sorted table is unchanged when both are rescaled by the same positive factor: no unit atom common to every term of the query
         qp, xp = Poly.from_key(args[1][1]), Poly.from_key(args[0][2])
